@@ -17,6 +17,8 @@ pub fn cmd_equiv(a: &Args) {
         let pad = spec.tag.ends_with("#pad");
         let af = if pad { afio::build_padded(spec, *idx as u64 + 5) } else if idx % 3 == 2 { afio::build_dup(spec, *idx as u64) } else { afio::build_compact(spec) };
         let core_n = if pad { spec.n } else { 0 };
+        // "#big": frameworks of hundreds of arguments judged through the grounded reduct
+        let big = spec.tag.ends_with("#big");
         let proj = afio::projection(&af);
         let r = catch_unwind(AssertUnwindSafe(|| {
             let ec = EquivalencyComputer::new(&af);
@@ -27,12 +29,16 @@ pub fn cmd_equiv(a: &Args) {
             let ratt: Vec<Vec<usize>> = red.iter_attacks().map(|t| vec![t.attacker().id() + 1, t.attacked().id() + 1]).collect();
             json!({"classes": classes, "rlabels": rlabels, "to_reduced": to_reduced, "ratt": ratt, "rn": red.n_arguments()})
         }));
-        match r {
+        let mut ev = match r {
             Ok(v) => json!({"ev": "equiv", "idx": idx, "tag": spec.tag, "args": proj["args"], "att": proj["att"], "core_n": core_n, "panic": false,
-                "classes": v["classes"], "rlabels": v["rlabels"], "to_reduced": v["to_reduced"], "ratt": v["ratt"], "rn": v["rn"]}).to_string(),
+                "classes": v["classes"], "rlabels": v["rlabels"], "to_reduced": v["to_reduced"], "ratt": v["ratt"], "rn": v["rn"]}),
             Err(_) => json!({"ev": "equiv", "idx": idx, "tag": spec.tag, "args": proj["args"], "att": proj["att"], "core_n": core_n, "panic": true,
-                "classes": [], "rlabels": [], "to_reduced": [], "ratt": [], "rn": 0}).to_string(),
+                "classes": [], "rlabels": [], "to_reduced": [], "ratt": [], "rn": 0}),
+        };
+        if big {
+            ev["big"] = json!(true);
         }
+        ev.to_string()
     });
     let mut lines = vec![json!({"ev": "reset"}).to_string()];
     lines.extend(res);
